@@ -1,9 +1,9 @@
 package main
 
 import (
-	"os"
 	"bytes"
 	"fmt"
+	"os"
 	"reflect"
 	"strings"
 
@@ -332,6 +332,7 @@ func runC02CLI(o *Out) {
 		return
 	}
 	plain := stripInfo(parsed[0])
+	scenarioMultiGuest(o, text, plain, []string{"1", "13..20", "CDS", "misc_feature"})
 	guestFa := []byte(">guest\nNNNN\n")
 	for _, ls := range []string{"1", "7", "60", "13..20", "complement(12..18)", "gene", "CDS", "misc_feature", "regulatory", "CDS/gene=b", "CDS@$"} {
 		rr, ok := regionsOf(ls, plain)
@@ -485,9 +486,16 @@ func runC03(o *Out) {
 			continue
 		}
 		var hf gts.FeatureSlice
-		hf = hf.Insert(mkFeat("source", gts.Range(0, L)))
+		// the source feature is not always the plain 1..L: open ends, several
+		// parts, or covering only a stretch of the sequence
+		sources := []gts.Location{gts.Range(0, L), gts.PartialRange(0, L, gts.PartialBoth),
+			gts.Join(gts.PartialRange(0, 3, gts.Partial5), gts.PartialRange(4, L, gts.Partial3)), gts.Range(1, L-2),
+			gts.Order(gts.Range(0, 4), gts.Range(4, L))}
+		hf = hf.Insert(mkFeat("source", sources[(k/5)%len(sources)]))
 		hf = hf.Insert(mkFeat("hostf", l))
 		hs := gts.New(nil, hf, letters(L))
+		resW := o.Run("seq_slice-whole", true, "seq_slice", seqSx(hs), "0", itoa(L))
+		checkSliceSeq(o, hs, 0, L, resW)
 		for i := 0; i <= L; i++ {
 			for _, n := range []int{0, 1, 3, L - i} {
 				if i+n > L || n < 0 {
@@ -803,10 +811,14 @@ func checkDeleteSeq(o *Out, op string, hs gts.Sequence, i, n int, res string) {
 		return
 	}
 	var out gts.Sequence
+	arg := parseSeq(seqSx(hs))
 	if op == "seq_delete" {
-		out = gts.Delete(parseSeq(seqSx(hs)), i, n)
+		out = gts.Delete(arg, i, n)
 	} else {
-		out = gts.Erase(parseSeq(seqSx(hs)), i, n)
+		out = gts.Erase(arg, i, n)
+	}
+	if after := seqSx(arg); after != seqSx(hs) {
+		o.Violate("delete-changed-its-argument", line, after)
 	}
 	want := append(append([]byte(nil), hs.Bytes()[:i]...), hs.Bytes()[i+n:]...)
 	if !bytes.Equal(out.Bytes(), want) {
@@ -869,7 +881,11 @@ func checkSliceSeq(o *Out, hs gts.Sequence, s, e int, res string) {
 		o.Violate("panic", line, "")
 		return
 	}
-	out := gts.Slice(parseSeq(seqSx(hs)), s, e)
+	arg := parseSeq(seqSx(hs))
+	out := gts.Slice(arg, s, e)
+	if after := seqSx(arg); after != seqSx(hs) {
+		o.Violate("slice-changed-its-argument", line, after)
+	}
 	s0, e0 := s, e
 	if s0 < 0 {
 		s0 += L
@@ -1041,6 +1057,26 @@ func checkRotate(o *Out, hs gts.Sequence, l gts.Location, L, n int, res string) 
 		o.Violate("residues", line, fmt.Sprintf("got %q want %q", out.Bytes(), want))
 		return
 	}
+	// the same rotation of an input whose residues sit in a larger buffer: the
+	// result owns its bytes (nothing the caller does to the rest of that buffer,
+	// or to the input, shows through), and the input is left as it was
+	{
+		buf := make([]byte, L, 3*L+4)
+		copy(buf, hs.Bytes())
+		in2 := gts.New(nil, hs.Features(), buf)
+		out2 := gts.Rotate(in2, n)
+		snap := append([]byte(nil), out2.Bytes()...)
+		full := buf[:cap(buf)]
+		for i := L; i < len(full); i++ {
+			full[i] = '#'
+		}
+		if !bytes.Equal(out2.Bytes(), snap) || !bytes.Equal(snap, want) {
+			o.Violate("rotate-result-shares-the-argument-buffer", line, fmt.Sprintf("%q after the caller wrote behind the input, want %q", out2.Bytes(), want))
+		}
+		if !bytes.Equal(buf, hs.Bytes()) {
+			o.Violate("rotate-changed-its-argument", line, string(buf))
+		}
+	}
 	g, cnt := findFeature(out.Features(), "f")
 	if cnt != 1 {
 		o.Violate("feature-lost", line, "")
@@ -1171,7 +1207,24 @@ func runC05(o *Out) {
 		if coordsIn(l, 0, L) {
 			o.Run("seq_locate", true, "seq_locate", regionSx(l.Region()), seqSx(hs))
 		}
-		checkRevComp(o, hs, l)
+		checkRevComp(o, hs, l, "f")
+		// the same under the key source when the location covers as many residues
+		// as the sequence has (one-sidedly partial, in several parts, across the
+		// origin): a source is mirrored like any other feature
+		if len(den(l)) == L {
+			ss := gts.New(nil, gts.FeatureSlice{mkFeat("source", l)}, append([]byte(nil), seqb...))
+			o.Run("seq_reverse", true, "seq_reverse", seqSx(ss))
+			checkRevComp(o, ss, l, "source")
+			if rv, ok := safeSeq(func() gts.Sequence { return gts.Reverse(parseSeq(seqSx(ss))) }); ok {
+				if g, n := findFeature(rv.Features(), "source"); n == 1 && wellMarked(l) {
+					a5, a3 := outerPartials(l)
+					b5, b3 := outerPartials(g.Loc)
+					if a5 != b3 || a3 != b5 {
+						o.Violate("reverse-partial-ends-not-swapped", join("seq_reverse", seqSx(ss)), locSx(g.Loc))
+					}
+				}
+			}
+		}
 	}
 }
 
@@ -1252,7 +1305,7 @@ func k1AfterRev(l gts.Location, op func(gts.Location) gts.Location) bool {
 	return false
 }
 
-func checkRevComp(o *Out, hs gts.Sequence, l gts.Location) {
+func checkRevComp(o *Out, hs gts.Sequence, l gts.Location, key string) {
 	L := len(hs.Bytes())
 	// locations naming a base twice are reduced by Join (sanctioned by C06);
 	// the extraction clause is claimed for duplicate-free locations
@@ -1270,14 +1323,14 @@ func checkRevComp(o *Out, hs gts.Sequence, l gts.Location) {
 		o.Violate("panic", line, "reverse-complement")
 		return
 	}
-	if src, n := findFeature(rc.Features(), "source"); n == 1 {
+	if src, n := findFeature(rc.Features(), "source"); n == 1 && key != "source" {
 		// the source feature of the reverse complement still extracts the whole original
 		whole, ok := safeSeq(func() gts.Sequence { return src.Loc.Region().Locate(rc) })
 		if !ok || !bytes.Equal(whole.Bytes(), hs.Bytes()) {
 			o.Violate("revcomp-extract-source", line, fmt.Sprintf("source %s extracts %q", locSx(src.Loc), whole.Bytes()))
 		}
 	}
-	f, cnt := findFeature(rc.Features(), "f")
+	f, cnt := findFeature(rc.Features(), key)
 	if cnt != 1 {
 		o.Violate("feature-lost", line, "")
 		return
@@ -1374,8 +1427,16 @@ func runC10(o *Out) {
 			continue
 		}
 		var hf gts.FeatureSlice
-		hf = hf.Insert(mkFeat("source", gts.Range(0, L)))
-		hf = hf.Insert(mkFeat("f", l))
+		// every third tracked feature is itself a source feature that covers only
+		// part of the sequence (a record assembled from several sources)
+		tkey := "f"
+		if k%3 == 1 && !hasAmbiguous(l) {
+			tkey = "source"
+		} else {
+			hf = hf.Insert(mkFeat("source", gts.Range(0, L)))
+		}
+		concatKey = tkey
+		hf = hf.Insert(mkFeat(tkey, l))
 		hs := gts.New(nil, hf, letters(L))
 		for _, cs := range cuts {
 			bounds := append(append([]int{0}, cs...), L)
@@ -1433,6 +1494,9 @@ func checkUndo(o *Out, op string, hs gts.Sequence, l gts.Location, i, n int, bac
 	}
 }
 
+// the key of the feature tracked through slice*;concat (set by the generator)
+var concatKey = "f"
+
 func checkConcat(o *Out, hs gts.Sequence, l gts.Location, bounds []int, pieces []gts.Sequence, r, arg string) {
 	line := join("seq_concat", arg)
 	if r == "panic" {
@@ -1455,7 +1519,7 @@ func checkConcat(o *Out, hs gts.Sequence, l gts.Location, bounds []int, pieces [
 	}
 	got := map[key]int{}
 	for _, f := range out.Features() {
-		if f.Key != "f" {
+		if f.Key != concatKey {
 			continue
 		}
 		for _, d := range dedupAdj(den(f.Loc)) {
